@@ -409,11 +409,14 @@ func execConc(c *concCase) []string {
 	}
 	var clk atomic.Int64
 	var mu sync.Mutex
+	var lastDone atomic.Int64 // time of the last completed operation (watchdog: progress)
+	lastDone.Store(time.Now().UnixNano())
 	logf := func(format string, a ...any) {
 		s := fmt.Sprintf(format, a...)
 		mu.Lock()
 		lines = append(lines, s)
 		mu.Unlock()
+		lastDone.Store(time.Now().UnixNano())
 	}
 	// one op, with recovery: returns the outcome class
 	guard := func(f func() string) (out string) {
@@ -529,14 +532,40 @@ func execConc(c *concCase) []string {
 	close(start)
 	done := make(chan struct{})
 	go func() { wg.Wait(); close(done) }()
-	select {
-	case <-done:
-	case <-time.After(40 * time.Second):
-		mu.Lock()
-		out := append(append([]string(nil), lines...),
-			"op panic HANG: goroutines did not finish within 40s (deadlock?)", "op judge => -", "end")
-		mu.Unlock()
-		return out
+	// watchdog: a HANG is "no operation completed for 25 s" (deadlock); a case that is merely slow
+	// (loaded machine) is abandoned unjudged after 50 s — its history is incomplete.
+	began := time.Now()
+wait:
+	for {
+		select {
+		case <-done:
+			break wait
+		case <-time.After(250 * time.Millisecond):
+		}
+		idle := time.Since(time.Unix(0, lastDone.Load()))
+		if idle > 25*time.Second {
+			buf := make([]byte, 1<<20)
+			buf = buf[:runtime.Stack(buf, true)]
+			var stacks []string
+			for _, g := range strings.Split(string(buf), "\n\n") {
+				if strings.Contains(g, "wizenheimer/comet.") && !strings.Contains(g, "execConc(") {
+					stacks = append(stacks, strings.ReplaceAll(core_trunc(g, 1200), "\n", " | "))
+				}
+			}
+			mu.Lock()
+			out := append(append([]string(nil), lines...),
+				"op panic HANG: no operation completed for 25s (deadlock?) — goroutines inside comet: "+
+					core_trunc(strings.Join(stacks, " ## "), 12000), "op judge => -", "end")
+			mu.Unlock()
+			return out
+		}
+		if time.Since(began) > 50*time.Second {
+			mu.Lock()
+			out := append(append([]string(nil), lines...),
+				"# slow: operations still completing after 50s; case abandoned unjudged (incomplete history)", "end")
+			mu.Unlock()
+			return out
+		}
 	}
 	// quiescence: one more search after everything completed
 	closed := false
